@@ -93,6 +93,17 @@ func init() {
 				"*ed25519.PublicKey": {pattern: ".ed25519"},
 				"ed25519.PublicKey":  {pattern: ".ed25519"}},
 			retLean: "Bool × Option KM.Go.Err"},
+		// C12: the RFC 7636 §4.6 switch of idpOpenIDCValidCodeVerifier (tail block)
+		glTarget{pkg: "cmd/keymasterd", name: "codeVerifierMethodCheck", group: "Oidc",
+			in: "idpOpenIDCValidCodeVerifier", blockFrom: "switch protectedData.CodeChallengeMethod",
+			binders: "(s256 : List Char → List Char) (protectedData : KM.GoTypes.keymasterdIDPCodeProtectedData) (codeVerifier : List Char)",
+			paths: map[string][2]string{
+				"protectedData.CodeChallengeMethod":            {"protectedData.CodeChallengeMethod", "string"},
+				"protectedData.CodeChallenge":                  {"protectedData.CodeChallenge", "string"},
+				"codeVerifier":                                 {"codeVerifier", "string"},
+				"sha256.Sum256([]byte(codeVerifier))":          {"()", "unit"},
+				"base64.RawURLEncoding.EncodeToString(sum[:])": {"(s256 codeVerifier)", "string"}},
+			retLean: "Bool"},
 		// C08
 		glTarget{pkg: "cmd/keymasterd", name: "isAutomationAdmin", group: "Admin",
 			binders: "(isAdminUser : List Char → Bool) (automationAdmins : List (List Char))",
